@@ -143,9 +143,8 @@ Proof.
   intros N. destruct e as [h d|h d]; simpl.
   - destruct (has_data d p) eqn:E; [discriminate|]. intros X; injection X as <-. simpl. constructor; [|assumption].
     intros I. apply has_data_In in I. congruence.
-  - destruct (N.eqb d 0); [intros X; injection X as <-; now apply remove_holder_nodup|].
-    destruct (has_entry h d p); [intros X; injection X as <-; now apply remove_entry_nodup|].
-    destruct (has_holder h p); [discriminate|]. intros X; injection X as <-. assumption.
+  - destruct (has_entry h d p); [intros X; injection X as <-; now apply remove_entry_nodup|].
+    destruct (has_holder h p); [destruct (N.eqb d 0); discriminate|]. intros X; injection X as <-. assumption.
 Qed.
 
 (* every state reached along an accepted trace has no duplicate buffer *)
